@@ -18,6 +18,7 @@ import time
 import uuid
 import logging
 import argparse
+import ipaddress
 import tempfile
 import contextlib
 import subprocess
@@ -173,7 +174,15 @@ def get_ext_config(
     if alt_subj_names is not None and len(alt_subj_names) > 0:
         alt_names = []
         for cname in alt_subj_names:
-            alt_names.append(b'DNS:%s' % bytes_(cname))
+            # Address literals need an IP entry, DNS entries never match them
+            literal = cname[1:-1] \
+                if cname.startswith('[') and cname.endswith(']') \
+                else cname
+            try:
+                ipaddress.ip_address(literal)
+                alt_names.append(b'IP:%s' % bytes_(literal))
+            except ValueError:
+                alt_names.append(b'DNS:%s' % bytes_(cname))
         config += b'\nsubjectAltName=' + COMMA.join(alt_names)
     # Add extendedKeyUsage section
     if extended_key_usage is not None:
